@@ -21,6 +21,12 @@ class FuncInfo:
         return "property" in self.decorators
 
     @property
+    def is_memoised(self):
+        """decorated with functools.lru_cache or a cache wrapper of the package"""
+        return any(d.split("(")[0].split(".")[-1] in ("lru_cache", "cache", "_unit_rule_cache")
+                   for d in self.decorators)
+
+    @property
     def is_staticmethod(self):
         return "staticmethod" in self.decorators
 
